@@ -130,12 +130,7 @@ func c12ByLanguage(p *Program, r *Report) bool {
 	s := NewSummarizer(p, g.Regexes)
 	oe := newOutEval(p, s)
 	oe.Tokens = true
-	fr := &oframe{fn: fn, env: termEnv{}, bind: map[ssa.Value]*lx{}}
-	for i, prm := range fn.Params {
-		if isStringish(prm.Type()) {
-			fr.env[prm] = Term{Param: i}
-		}
-	}
+	fr := oe.topFrame(fn)
 	oe.seedTokens(fr)
 	var alts []*lx
 	for _, ret := range Returns(fn) {
